@@ -16,7 +16,9 @@ zero is `none`, the overflow panic):
 * `arcswap_thread_max_room pw max_part_weight` – the test and the two differences around the f64 share
   in the computation of `thread_max_pws`;
 * `arcswap_task_report thread_pw pw` – `(gains[p], losses[p])` a task reports at the end of a pass;
-* `arcswap_merge_update pw gain loss` – `*pw += gain; *pw -= loss`.
+* `arcswap_merge_update pw gain loss` – `*pw += gain; *pw -= loss`;
+* `arcswap_metadata_fields` – the fields of `struct Metadata` (`Metadata::merge` is locked as their
+  field-wise sum).
 
 The frame (loops, `zip` chains, zero-initialised vectors, a reduce that only adds) is locked as
 text by the translator.  The theorems tie the hand-written model (`decideMove`, the `store` step,
@@ -144,6 +146,24 @@ theorem merge_update_reachable {c : Cfg} {p₀ : List Nat} {s : State} (hy : Hyp
   have hle : L.toNat ≤ a.toNat + G.toNat := by omega
   refine ⟨a.toNat + G.toNat - L.toNat, (merge_update_tie _ _ _).1 hle, ?_, ?_, ?_, ?_⟩ <;> omega
 
+/-- The model's `Metadata` has exactly the fields of the source's struct, in the same order (the
+order of the line protocol), `i64 ↦ Int`, `usize ↦ Nat`; the translator has checked that the
+source's `Metadata::merge` is the field-wise sum of all of them, and so is the model's. -/
+theorem metadata_fields_tie :
+    arcswap_metadata_fields =
+      [("edge_cut_gain", "i64"), ("pass_count", "usize"), ("move_attempts", "usize"), ("move_count", "usize"),
+       ("race_count", "usize"), ("locked_count", "usize"), ("no_gain_count", "usize"),
+       ("bad_balance_count", "usize"), ("vertices_per_thread", "usize")] := rfl
+
+theorem metadata_merge_fieldwise (a b : Metadata) :
+    (a.merge b).edgeCutGain = a.edgeCutGain + b.edgeCutGain ∧ (a.merge b).passCount = a.passCount + b.passCount ∧
+    (a.merge b).moveAttempts = a.moveAttempts + b.moveAttempts ∧ (a.merge b).moveCount = a.moveCount + b.moveCount ∧
+    (a.merge b).raceCount = a.raceCount + b.raceCount ∧ (a.merge b).lockedCount = a.lockedCount + b.lockedCount ∧
+    (a.merge b).noGainCount = a.noGainCount + b.noGainCount ∧
+    (a.merge b).badBalanceCount = a.badBalanceCount + b.badBalanceCount ∧
+    (a.merge b).verticesPerThread = a.verticesPerThread + b.verticesPerThread := by
+  simp [Metadata.merge]
+
 /-- Non-vacuity: a reachable state with a non-zero gain and loss (the state of `Props/C05c.lean`). -/
 example : arcswap_task_report 3 2 = some (1, 0) ∧ arcswap_task_report 1 2 = some (0, 1) ∧
     arcswap_merge_update 2 1 3 = some 0 ∧ arcswap_merge_update 2 1 4 = none ∧
@@ -160,3 +180,5 @@ end Coupe.GenTieArc
 #print axioms Coupe.GenTieArc.task_report_tie
 #print axioms Coupe.GenTieArc.merge_update_tie
 #print axioms Coupe.GenTieArc.merge_update_reachable
+#print axioms Coupe.GenTieArc.metadata_fields_tie
+#print axioms Coupe.GenTieArc.metadata_merge_fieldwise
